@@ -284,7 +284,7 @@ func c20FactoryInit(s *scen, nonce uint64) ([]byte, common.Address) {
 	return c20Pad(s.k[1].Addr, nonce, a.Bytes())
 }
 
-var c20Libs [2]common.Address     // libraries: CONVERT then STOP / CONVERT then REVERT (set by c20DeployFactory)
+var c20Libs [2]common.Address    // libraries: CONVERT then STOP / CONVERT then REVERT (set by c20DeployFactory)
 var c20Factory common.Address    // set by c20DeployFactory for the scenario being run
 var c20Children []common.Address // predicted children of the factory calls of the scenario being run
 
